@@ -25,6 +25,7 @@ WINDS = {
     'tail': [(10.0, 0.0, None)],
     'left': [(10.0, 90.0, None)],
     'two': [(8.0, 90.0, 200.0), (12.0, 270.0, 500.0)],     # (mph, from degrees, until feet)
+    'two_unsorted': [(12.0, 270.0, 500.0), (8.0, 90.0, 200.0)],
 }
 
 _CACHE = {}
